@@ -9,6 +9,7 @@ import (
 	"os"
 	"os/exec"
 	"path/filepath"
+	"regexp"
 	"strings"
 	"sync"
 	"time"
@@ -63,7 +64,16 @@ type Runner struct {
 	mu       sync.Mutex
 	TotalMs  int64
 	NQueries int
+	// undecided counts, per obligation name without its path tag: once a clause
+	// has gone undecided on many paths (the tree is already failing the check)
+	// the remaining paths get a short timeout, so that a broken tree is reported
+	// in minutes rather than hours. Nothing is undecided on a tree that passes.
+	undecided map[string]int
 }
+
+var pathTagRe = regexp.MustCompile(`\[[^\]]*\]|#[0-9.]+$`)
+
+func clauseKey(name string) string { return pathTagRe.ReplaceAllString(name, "") }
 
 func NewRunner(dir string, timeout time.Duration) *Runner {
 	os.MkdirAll(dir, 0o755)
@@ -143,7 +153,7 @@ func (r *Runner) runOneT(ctx context.Context, solver, file string, timeout time.
 }
 
 // Solve races the solvers on q.
-func (r *Runner) Solve(q *Query) Result {
+func (r *Runner) Solve(q *Query) (res Result) {
 	text := q.Text(false)
 	h := sha256.Sum256([]byte(text))
 	file := filepath.Join(r.Dir, Ident(q.Name)+"-"+hex.EncodeToString(h[:4])+".smt2")
@@ -160,10 +170,26 @@ func (r *Runner) Solve(q *Query) Result {
 	if q.Probe {
 		timeout = 2 * time.Second
 	}
+	ck := clauseKey(q.Name)
+	r.mu.Lock()
+	if r.undecided[ck] >= 8 && timeout > 3*time.Second {
+		timeout = 3 * time.Second
+	}
+	r.mu.Unlock()
+	defer func() {
+		if !q.Probe && res.Status != "unsat" && res.Status != "sat" {
+			r.mu.Lock()
+			if r.undecided == nil {
+				r.undecided = map[string]int{}
+			}
+			r.undecided[ck]++
+			r.mu.Unlock()
+		}
+	}()
 	for _, s := range r.Solvers {
 		go func(s string) { ch <- r.runOneT(ctx, s, file, timeout) }(s)
 	}
-	res := Result{Status: "unknown", File: file}
+	res = Result{Status: "unknown", File: file}
 	var outs []string
 	start := time.Now()
 	for range r.Solvers {
